@@ -13,7 +13,7 @@ SPEC = {
         'C32_reg_acked_contiguous_increasing_refuted', 'C32_reg_acked_contiguous_increasing_partial',
         'C32_reg_recorded_le_acked_partial',
         'C32_reg_recorded_monotone_refuted', 'C32_reg_recorded_monotone_partial',
-        'C32_reg_recorded_only_after_ack', 'C32_second_task_replays', 'C32_fix2_guard', 'C32_fix2_single_task_and_order',
+        'C32_reg_recorded_only_after_ack', 'C32_second_task_replays', 'C32_fix2_guard', 'C32_before_repair_guard_needed',
         'C32_error_exit_blocks_close', 'C32_close_twice_panics',
     ],
     'allowed_axioms': [],
@@ -36,8 +36,9 @@ SPEC = {
             'at every PostData, at the "exceed 3 times" log call (status notRunning written, entry not yet deleted; through a log15 '
             'handler) and at the record store of its deactivation; a first registration can be held at its record store; exactly one '
             'goroutine is released at a time by a seeded scheduler, so the trace is the real step order. Streams: reg-guarded '
-            '(registrations only outside start-up/shutdown windows: any spec failure is a violation), reg-overlap (registrations '
-            'preferably inside a start-up window, also right after the first registration: 2-6 goroutines), reg-deactwin '
+            '(registrations only outside start-up/shutdown windows), reg-overlap (registrations preferably while a goroutine is '
+            'held in its start-up, also right after the first registration; before fix c2166d1 this started 2-6 goroutines, now one: '
+            'any spec failure in these two streams is a violation), reg-deactwin '
             '(registration while the failing goroutine sits between status=notRunning and delete(tasks), then a second one), '
             'reg-addtask (second first registration while the first is held at its record store), with growth, failures '
             '(deactivation only by a goroutine that is alone on its pushNotify), probes, a LoadBlockLastSequence error before Close '
@@ -45,8 +46,8 @@ SPEC = {
             '(panic). Types block/header/receipt/result/EVM (orphan shapes: block kinds). non-trivial = at least two goroutines and two '
             'acknowledged posts. CRace: free-running (nothing held): 20 names per Push, each registered with a resume point and '
             'registered again twice at once (fresh), or deactivated by a dead endpoint (three real failures, 1 s apart) and registered '
-            'again twice (deact); one case per name with what its endpoint received; non-trivial = at least two goroutines did a '
-            'start-up read',
+            'again twice (deact); one case per name with what its endpoint received (exactly one goroutine must start; nothing is '
+            'excused here); non-trivial = at least two goroutines did a start-up read (never on the repaired code)',
     'trusted_base': [
         'SequenceStore / CommonStore are in-memory doubles with BlockStore\'s conventions (append-only sequence log, GetKey -> '
         'ErrNotFoundInDb, List -> ErrNotFound when empty); blockstore.go\'s own storage of the sequence log is not exercised here',
@@ -84,17 +85,16 @@ SPEC = {
         'task that starts with nothing stored (re-taken when such a task is restarted before anything was acknowledged)',
     ],
     'manifest': {
-        'level_text': 'PARTIAL since the registration / start-up extension: on the transition system over several goroutines of one '
-                      'name (ModelReg.v) "one task per subscriber", gap-free increasing delivery and a monotone stored sequence are '
-                      'REFUTED for the unchanged code (C32_single_task_per_subscriber_refuted, C32_reg_acked_…_refuted, '
-                      'C32_reg_recorded_monotone_refuted; open finding C32-F2, reproduced deterministically and free-running) and '
-                      'PROVED under the boolean guard "no check2ResumePush of the name while one of its goroutines is in a start-up '
-                      'window (spawned, status not yet written) or shutdown window (status notRunning written, entry not yet '
-                      'deleted), and no second concurrent first registration" (…_partial, all interleavings of registration, '
-                      'start-up, rounds, answers, shutdown, close, restart steps); C32_second_task_replays gives the consequence '
-                      'of a second goroutine for every state (the same batch twice); the second sentence of the property ("recorded '
-                      'only after acknowledged") is proved WITHOUT the guard (C32_reg_recorded_only_after_ack); with the candidate repair fix2.diff the guard '
-                      'shrinks to "no second concurrent first registration" (C32_fix2_*). Within one task goroutine (Model.v) the '
+        'level_text': 'PARTIAL: on the transition system over several goroutines of one name (ModelReg.v, the code in /repo with fix '
+                      'c2166d1) "one task per subscriber", gap-free increasing delivery and a monotone stored sequence are PROVED for all '
+                      'interleavings of re-registration, start-up, rounds, answers, shutdown, close and restart steps under the one remaining '
+                      'boolean guard "no step of a second concurrent first registration of the same new name" (…_partial, guard fixed_guard), '
+                      'and REFUTED without it (…_refuted, witness: addTask of a second first registration; open part of finding C32-F2, '
+                      'reproduced deterministically). The two other shapes of C32-F2 (re-registration inside a start-up or shutdown window of '
+                      'a goroutine) are repaired by c2166d1: C32_before_repair_guard_needed keeps the statement for the old code, a revert is '
+                      'reported with a failing input. C32_second_task_replays gives the consequence of a second goroutine for every state '
+                      '(the same batch twice); the second sentence of the property ("recorded only after acknowledged") is proved WITHOUT the '
+                      'guard (C32_reg_recorded_only_after_ack). Within one task goroutine (Model.v) the '
                       'statement is full for every push type (block, header, tx receipt, tx result, EVM event), every sequence store and '
                       'size limit: the acknowledged list is exactly the deliverable sequence numbers after the resume point, '
                       'increasing, and the stored last push sequence is the registration value or covered by acknowledgements, '
